@@ -870,6 +870,7 @@ fn write_evidence(d: &Driver, path: &Path, violations: i64, replays: &[Value], k
         "simplify::move::fix_local_1_vertex",
         "simplify::move::fix_local_2_vertex",
         "simplify::move::fix_non_disk_face",
+        "simplify::move::fix_folded_faces",
         "simplify::move::split_and_glue::edge_mode",
         "simplify::move::split_and_glue::face_mode",
         "simplify::cut_face",
